@@ -109,7 +109,11 @@ func (c *canonicaliser) value(v Value) {
 		c.term(x.Cap)
 	case StrV:
 		c.u8(4)
-		c.i32(x.Arr.id)
+		if x.Alias != 0 {
+			c.objRef(x.Alias)
+		} else {
+			c.i32(x.Arr.id)
+		}
 		c.term(x.Off)
 		c.term(x.Len)
 	case *StructV:
